@@ -15,7 +15,7 @@ RULE = ('Hypothesis draws a transform (DWT1D/2D forward and inverse, SWT, DTCWT 
         '(iv) T(x)[n,c] = T(x[n:n+1,c:c+1])[0,0]; (v) changing one slice - also to NaN or inf - leaves every other output slice bitwise unchanged; '
         '(vi) permuting batch items / channels permutes the outputs; (vii) for tiny cases the full (N*C*n)-column operator '
         'equals kron(I, A_slice). Non-trivial = N>=2 and C>=2. Distinct = configuration without seeds.')
-ASSUMPTIONS = ['tolerance 1e-9*gain*(|a|max|x|+|b|max|y|) with gain = largest absolute row sum of the extracted slice operator',
+ASSUMPTIONS = ['tolerance 1e-11*gain*(|a|max|x|+|b|max|y|) with gain = largest absolute row sum of the extracted slice operator',
                'CPU kernels deterministic: isolation (v) is checked bitwise']
 STRATA = {'thorough': 'every transform kind (11)', 'quick': ''}
 LABEL_FLOORS = {'N>=2,C>=2': 0.4}
@@ -69,7 +69,7 @@ def run_case(case):
     Tx, Ty = T(x), T(y)
     # (iii) the extracted matrix predicts every slice
     pred = np.einsum('oi,nci->nco', A, x)
-    tol = 1e-9 * max(g * mx, 1e-300)
+    tol = core.TOL64 * max(g * mx, 1e-300)
     okc, err = core.close(Tx, pred, tol)
     r.metric('matrix_prediction_rel_err', err / max(g * mx, 1e-300))
     if not okc:
@@ -79,7 +79,7 @@ def run_case(case):
     z = a * x + b * y
     Tz = T(z)
     want = a * Tx + b * Ty
-    tol = 1e-9 * max(g * (abs(a) * mx + abs(b) * my), 1e-300)
+    tol = core.TOL64 * max(g * (abs(a) * mx + abs(b) * my), 1e-300)
     okc, err = core.close(Tz, want, tol)
     if not okc:
         r.fail('superposition:' + kind, 'T(a*x+b*y) != a*T(x)+b*T(y) for a=%g b=%g: %s' % (a, b, core.first_mismatch(Tz, want, tol)))
@@ -134,10 +134,10 @@ def run_case(case):
             n_, rem = divmod(i, C * tin)
             c_, j_ = divmod(rem, tin)
             want[n_, c_] = A[:, j_]
-            okc, err = core.close(Te, want, 1e-9 * g)
+            okc, err = core.close(Te, want, core.TOL64 * g)
             if not okc:
                 r.fail('kron:' + kind, 'basis input %d of the full (N,C,...) space: output is not kron(I, A_slice): %s' %
-                       (i, core.first_mismatch(Te, want, 1e-9 * g)))
+                       (i, core.first_mismatch(Te, want, core.TOL64 * g)))
                 break
     return r
 
